@@ -18,7 +18,7 @@ VERIF = os.path.dirname(os.path.dirname(os.path.dirname(os.path.abspath(__file__
 REPO = os.environ.get("VERIF_REPO", "/repo")
 COQ = os.path.join(VERIF, "coq")
 RT = os.path.join(VERIF, "rt")
-DRIVER = os.path.join(VERIF, "build", "driver")
+DRIVER = os.environ.get("VERIF_DRIVER") or os.path.join(VERIF, "build", "driver")
 NPROC = int(os.environ.get("VERIF_JOBS", "16"))
 GUARD = "LIBFIBER_VERIF"
 
@@ -89,18 +89,65 @@ def coq_files_closure(vfile):
             txt = open(os.path.join(COQ, f)).read()
         except OSError:
             continue
-        for m in re.finditer(r"From\s+LF\s+Require\s+(?:Import\s+|Export\s+)?([^.]*)\.", txt):
-            for name in m.group(1).split():
-                todo.append(name.replace(".", "/") + ".v")
+        todo.extend(coq_deps(f))
     return seen
 
 
+def coq_deps(f):
+    try:
+        txt = open(os.path.join(COQ, f)).read()
+    except OSError:
+        return []
+    deps = []
+    for m in re.finditer(r"From\s+LF\s+Require\s+(?:Import\s+|Export\s+)?([^.]*(?:\.[A-Za-z_][^.\s]*)*)\.", txt):
+        for name in m.group(1).split():
+            deps.append(name.replace(".", "/") + ".v")
+    return deps
+
+
 def coq_make(ctx, targets, timeout=1500):
-    """(re)build .vo targets with the project Makefile."""
-    if not os.path.exists(os.path.join(COQ, "Makefile")):
-        sh("coq_makefile -f _CoqProject -o Makefile", cwd=COQ)
-    rc, out = sh(["make", "-k", "-j%d" % NPROC] + targets, cwd=COQ, timeout=timeout)
-    return rc, out
+    """Incremental build of the .vo closure of the targets with plain coqc
+    (full .vo, no -vos), one flock per file so concurrent checks can share the
+    tree.  Returns (rc, output)."""
+    import fcntl
+    order, seen = [], set()
+
+    def visit(f):
+        if f in seen:
+            return
+        seen.add(f)
+        for d in coq_deps(f):
+            visit(d)
+        order.append(f)
+    for t in targets:
+        visit(t[:-1] if t.endswith(".vo") else t)
+    log = []
+    for f in order:
+        src = os.path.join(COQ, f)
+        vo = src + "o"
+        if not os.path.exists(src):
+            return 1, "missing source %s" % f
+        with open(src + ".lock", "w") as lk:
+            fcntl.flock(lk, fcntl.LOCK_EX)
+            try:
+                stale = (not os.path.exists(vo)) or os.path.getmtime(vo) < os.path.getmtime(src)
+                if not stale:
+                    for d in coq_deps(f):
+                        dvo = os.path.join(COQ, d) + "o"
+                        if os.path.exists(dvo) and os.path.getmtime(dvo) > os.path.getmtime(vo):
+                            stale = True
+                if stale:
+                    rc, out = sh(["coqc", "-Q", ".", "LF", f], cwd=COQ, timeout=timeout)
+                    log.append("coqc %s -> %d\n%s" % (f, rc, out[-3000:]))
+                    if rc != 0:
+                        return rc, "\n".join(log)
+            finally:
+                fcntl.flock(lk, fcntl.LOCK_UN)
+        try:
+            os.remove(src + ".lock")
+        except OSError:
+            pass
+    return 0, "\n".join(log)
 
 
 def coq_property(ctx, propfile, theorems):
